@@ -211,7 +211,7 @@ static int _yr_arena_allocate_memory(
   // The unused part of the buffer is zeroed only when the buffer is resized
   // for a zeroed allocation. If it was resized for a non-zeroed one the spare
   // space still holds whatever the allocator returned.
-  if (flags & YR_ARENA_ZERO_MEMORY)
+  if ((flags & YR_ARENA_ZERO_MEMORY) && size > 0)
     memset(b->data + b->used, 0, size);
 
   if (ref != NULL)
